@@ -46,7 +46,7 @@ def pool():
          pd.DataFrame({1: [True], 'z': [None]}), pd.Series([1, 2, 3], name='s'), pd.Series([], dtype='float64'),
          pd.Series(['a'], index=[(1, 2)]), pd.DataFrame({'t': pd.to_datetime(['2020-01-01'])}),
          pd.DataFrame({'c': pd.Categorical(['x', 'y', 'x'])})]
-    G = [[], [0], ['a\u2028b', 'c\x85d\u2029e', '\x0b\x0c\x1c'], [{'a': 1}, [], 'x', None, 1.5], [{'k': i} for i in range(12)], ['a\nb', ' '], [[[]]], [0, False, '', {}]]
+    G = [list(range(5000)), [{'i': i} for i in range(4100)], [], [0], ['a\u2028b', 'c\x85d\u2029e', '\x0b\x0c\x1c'], [{'a': 1}, [], 'x', None, 1.5], [{'k': i} for i in range(12)], ['a\nb', ' '], [[[]]], [0, False, '', {}]]
     L = [[], [np.array(1)], [np.arange(i) for i in range(12)], [np.array([[1.5]]), np.array(['s'])]]
     F = [{'out.json': '{}'}, {'a.txt': '', 'sub/b.txt': 'x\ny', 'sub/deep/c.bin': '\x00\x01'}, {}]
     return {'json': J, 'npy': A, 'pd': D, 'gen': G, 'lazy': G, 'listnpy': L, 'dir': F}
